@@ -586,6 +586,9 @@ def run_scenario(spec, sampling=False, run_on=True, explicit_shutdown=False,
                 rec.sample()
         if sampling or inspect:
             loop.quiescent_cb = on_quiescent
+        if sampling == 'every-iteration':
+            # the inspection API is also read between any two batches of loop callbacks
+            loop.iteration_cb = lambda: rec.sample('i')
 
         if spec.get('rerun'):
             # the same scheduler objects are run a first time to completion; the run that
@@ -676,6 +679,7 @@ def run_scenario(spec, sampling=False, run_on=True, explicit_shutdown=False,
             for t in loop.tasks if not t.done()]
         terminated = trace.outcome['how'] in ('return', 'raise')
         loop.quiescent_cb = None
+        loop.iteration_cb = None
         if run_on and terminated:
             with contextlib.redirect_stdout(out):
                 try:
@@ -706,6 +710,7 @@ def run_scenario(spec, sampling=False, run_on=True, explicit_shutdown=False,
         asyncio.set_event_loop(loop)
         # silence and dispose of whatever is left
         loop.quiescent_cb = None
+        loop.iteration_cb = None
         loop.on_cancel_request = None
         loop.on_task_created = None
         loop.horizon = float('inf')
